@@ -5,3 +5,4 @@ open PgmVerif
 #print axioms PgmVerif.C02_sepset_agreement_after_update
 #print axioms PgmVerif.C02_calibrated_tree_exact
 #print axioms PgmVerif.C02_calibrated_tree_marginal
+#print axioms PgmVerif.C02_max_calibrated_tree_exact
